@@ -20,8 +20,10 @@ def probe(ctx, f, shadow, where, case):
             ctx.fail(f"added key reported absent by `in` {where}", key=k, n_keys=len(shadow))
     if shadow and hasattr(f, "hashes"):
         k = shadow[len(shadow) // 2]
-        if not f.check_alt(f.hashes(k)):
+        arg, cp = bl.alt_arg(ctx, f.hashes(k))
+        if not f.check_alt(arg):
             ctx.fail(f"added key reported absent by check_alt(hashes(key)) {where}", key=k)
+        bl.arg_unchanged(ctx, arg, cp, "check_alt")
         # "hash once, use on several filters": a hash list computed for a DEEPER filter is a prefix-compatible argument
         if not getattr(f.hash_function, "depth_dependent", False) and not f.check_alt(f.hashes(k, f.number_hashes + 1 + len(shadow) % 5)):
             ctx.fail(f"added key reported absent by check_alt() given a longer (deeper) hash list {where}", key=k)
@@ -483,6 +485,81 @@ def wl_many_keys(ctx, rng, case):
         sc.cleanup()
 
 
+def wl_rate_types(ctx, rng, case):
+    """the false-positive rate given as a float, a decimal.Decimal or a fractions.Fraction (all accepted), for requests whose geometry sits on
+    an edge: sized from the full-precision rate it would differ from the geometry of the single-precision rate that every export records.
+    Keys added to such a filter stay present through reloads on every channel, unions with a filter of the same request (spelled with
+    another type) and - for the expanding filter - growth after a reload"""
+    import probables as P
+
+    edge = rng.random() < 0.8
+    n, text = rng.choice(gen.f32_edge_requests()) if edge else (rng.choice([200, 333, 1000, 5000]), rng.choice(["0.05", "0.01", "0.001", "0.3"]))
+    how, rate = gen.spell_rate(rng, text)
+    how2, rate2 = gen.spell_rate(rng, text)
+    kind = rng.choice(["BloomFilter", "BloomFilter", "BloomFilterOnDisk", "ExpandingBloomFilter"])
+    keys = gen.universe(rng, 24)
+    case.desc = {"kind": kind, "est": n, "rate": text, "spelled_as": how, "partner_spelled_as": how2, "geometry_on_the_float32_edge": edge}
+    ctx.observe("rate_spellings", how)
+    sc = bl.Scratch(ctx, case)
+    objs = []
+
+    def present(o, stage):
+        for kx in keys:
+            ctx.counters["oracle_evaluations"] += 1
+            if not o.check(kx):
+                ctx.fail(f"added key reported absent {stage} (rate given as {how} {text}, est_elements {n}, {kind})", key=kx)
+        ctx.count("full_probes")
+
+    try:
+        if kind == "ExpandingBloomFilter":
+            est = n if rng.random() < 0.5 else rng.choice([3, 7, 10])
+            f = P.ExpandingBloomFilter(est, rate)
+            for kx in keys[:12]:
+                f.add(kx)
+            g = P.ExpandingBloomFilter.frombytes(bytes(f))
+            for kx in keys[12:]:
+                g.add(kx)
+            present(g, "after export, load and further additions")
+            p = sc.path("exp")
+            g.export(p)
+            present(P.ExpandingBloomFilter(filepath=p), "after a second export (file) and load")
+        else:
+            mk = (lambda r: P.BloomFilterOnDisk(sc.path("rt"), n, r)) if kind == "BloomFilterOnDisk" else (lambda r: P.BloomFilter(n, r))
+            f, g = mk(rate), mk(rate2)
+            objs += [f, g]
+            for kx in keys[:12]:
+                f.add(kx)
+            for kx in keys[12:]:
+                g.add(kx)
+            u = f.union(g)
+            ctx.check(u is not None, f"union of two filters built from the same request (rate spelled as {how} and as {how2}) returned None")
+            present(u, "by the union of two filters of the same request")
+            if u.elements_added < 0:
+                return  # a completely set array (the documented sentinel): not exportable
+            data = bytes(u)
+            p = sc.path("u")
+            u.export(p)
+            for stage, o in (("after frombytes", P.BloomFilter.frombytes(data)), ("after a hex reload", P.BloomFilter(hex_string=u.export_hex())),
+                             ("after a file reload", P.BloomFilter(filepath=p)), ("after an on-disk reopen of the export", P.BloomFilterOnDisk(p))):
+                objs.append(o)
+                present(o, stage)
+                u2 = o.union(u)
+                ctx.check(u2 is not None, f"a reload ({stage[6:]}) is no longer compatible with the filter it was exported from")
+                present(u2, f"by the union of a reload ({stage[6:]}) with its original")
+        ctx.count("rate_type_cases")
+        if edge:
+            ctx.count("rate_type_cases_on_the_float32_edge")
+        case.nontrivial = True
+    finally:
+        for o in objs:
+            if hasattr(o, "close"):
+                try:
+                    o.close()
+                except Exception:
+                    pass
+        sc.cleanup()
+
+
 def wl_large_dense(ctx, rng, case):
     """LARGE filters (bit arrays of 40 KiB .. 200 KiB, number_bits not a multiple of 8) filled DENSELY: a hand-written strategy sends
     thousands of keys to chosen positions so that every byte of the array carries a bit of some key; the keys are split over two
@@ -568,10 +645,11 @@ PROP = Prop(
         Workload("boundary", wl_boundary, quick=90, thorough=1800),
         Workload("many_keys", wl_many_keys, quick=12, thorough=600),
         Workload("large_dense", wl_large_dense, quick=6, thorough=90),
+        Workload("rate_types", wl_rate_types, quick=40, thorough=2500),
         Workload("plain", wl_plain, quick=1600, thorough=120000),
         Workload("expanding", wl_expanding, quick=1000, thorough=80000),
     ],
     assumptions=["shadow set kept by the harness; a key is 'added' once add/add_alt returned normally",
                  "geometries are screened with the independent sizing so that number_bits/number_hashes are unambiguous"],
-    required=["full_probes", "monotonicity_checks", "op.reload", "op.union", "cases_with_growth", "many_key_cases"],
+    required=["full_probes", "monotonicity_checks", "op.reload", "op.union", "cases_with_growth", "many_key_cases", "rate_type_cases_on_the_float32_edge"],
 )
